@@ -23,6 +23,7 @@ func c01Progs() []func() *LazyProgram {
 		func() *LazyProgram { return progUniqueCtx("action", BPass) },
 		func() *LazyProgram { return progNonFatal(5) },
 		func() *LazyProgram { return progMachine() },
+		func() *LazyProgram { return progMachineRejectedStepLeavesTraces() },
 		func() *LazyProgram { return progCustomCleanup() },
 		func() *LazyProgram { return progUniqueCtx("body", BPass) },
 	}
